@@ -147,7 +147,12 @@ func DateTimeFromString(env Environment, str string, fillTime bool) (time.Time, 
 	}
 
 	// combine our date and time
-	dt := time.Date(date.Year, time.Month(date.Month), date.Day, timeOfDay.Hour, timeOfDay.Minute, timeOfDay.Second, timeOfDay.Nanos, env.Timezone())
+	return CombineDateAndTime(date, timeOfDay, env.Timezone()), nil
+}
+
+// CombineDateAndTime returns the given time of day on the given date in the given timezone
+func CombineDateAndTime(date dates.Date, timeOfDay dates.TimeOfDay, tz *time.Location) time.Time {
+	dt := time.Date(date.Year, time.Month(date.Month), date.Day, timeOfDay.Hour, timeOfDay.Minute, timeOfDay.Second, timeOfDay.Nanos, tz)
 
 	// a wall clock time which is skipped in this timezone (e.g. midnight on a day when DST starts at midnight) can come
 	// back as a time that far before the gap - which can be on the previous day - so use the first instant after the gap
@@ -159,7 +164,7 @@ func DateTimeFromString(env Environment, str string, fillTime bool) (time.Time, 
 		}
 	}
 
-	return dt, nil
+	return dt
 }
 
 // DateFromString returns a date constructed from the passed in string, or an error if we
